@@ -56,6 +56,8 @@ def gen_case(job, seed):
         return defs.gen_shape(idx, n, literal=bool(job.get("shape_literal")))
     if g == "chain":
         return defs.gen_chain(seed)
+    if g == "mcycle":
+        return defs.gen_mcycle(seed)
     if g == "cmds":
         return defs.gen_cmds(seed)
     if g == "rwait":
